@@ -513,6 +513,16 @@ def sub_operators(op):
     return out
 
 
+def bicgstab_inside(op) -> bool:
+    """A lazy inverse configured with lineax's BiCGStab somewhere inside op."""
+    import lineax as lx
+    for o in sub_operators(op):
+        cfg = getattr(o, 'config', None)
+        if type(o).__name__ == 'InverseOperator' and cfg is not None and isinstance(getattr(cfg, 'solver', None), lx.BiCGStab):
+            return True
+    return False
+
+
 def is_approx(op) -> bool:
     """Inexact arithmetic somewhere inside op: trigonometry, division, iterative solver, FFT."""
     for o in sub_operators(op):
@@ -1354,7 +1364,11 @@ class Check(PropertyCheck):
                 term = enc.term(op)
             except Exception as ex:  # measuring a leaf applies it: judged below, once the dense forms are known
                 enc_error = ex
-        approx = is_approx(op)
+        # a division anywhere in the description (the inverse of a scalar multiple of the identity is the float32
+        # reciprocal; `/ c`) makes float32 results differ from float64 closed forms and breaks exact linearity in the
+        # last place: such cases are compared with a tolerance (false alarm of vp check #5, seed 1: 1/(-1+2j))
+        txt = json.dumps({'let': case.get('let'), 'e': case.get('e')}, default=str)
+        approx = is_approx(op) or any(t in txt for t in ('"inv"', '"I"', '"div"', '"div2"'))
         obs = {
             'in': A.struct_repr(ins), 'out': A.struct_repr(outs),
             'in_size': A.struct_size(ins), 'out_size': A.struct_size(outs),
@@ -1439,8 +1453,6 @@ class Check(PropertyCheck):
         # a division anywhere in the description (inverse of a scalar multiple of the identity is the float32 reciprocal,
         # `/ c`) makes the float64 closed form differ from the float32 one in the last place: compare with a tolerance
         # (false alarm of vp check #5, seed 1: 1/(-1+2j) in complex64 vs complex128)
-        txt = json.dumps({'let': case.get('let'), 'e': case.get('e')})
-        approx = approx or any(t in txt for t in ('"inv"', '"I"', '"div"', '"div2"'))
         bad = []
         for tag in ('mv', 'override', 'generic'):
             m = mats.get(tag)
@@ -1478,6 +1490,11 @@ class Check(PropertyCheck):
                 rhs = jax.tree.map(lambda u, v: a * u + b * v, fx, fy)
                 if jax.tree.structure(fz) != jax.tree.structure(rhs):
                     bad.append('op(a x + b y) and a op(x) + b op(y) have different containers')
+                    continue
+                if bicgstab_inside(op) and any(np.isnan(cflat(t)).any() for t in (fz, fx, fy)):
+                    # lineax's BiCGStab breaks down (NaN) on particular right-hand sides, the zero vector included, of
+                    # perfectly conditioned SPD systems where CG / GMRES / LU succeed: a solver matter, not furax's
+                    # (false alarm met with VERIF_SEED=3); the probe is skipped, the other probes and dense forms remain
                     continue
                 lz, lr = cflat(fz), cflat(rhs)
                 if not self._close(lz, lr, approx):
